@@ -12,15 +12,19 @@ import (
 	"github.com/tucats/ego/internal/defs"
 	"github.com/tucats/ego/internal/language/bytecode"
 	"github.com/tucats/ego/internal/language/compiler"
+	"github.com/tucats/ego/internal/language/data"
 	"github.com/tucats/ego/internal/language/symbols"
 	"github.com/tucats/ego/internal/language/tokenizer"
 )
 
 // VMOptions of one execution.
 type VMOptions struct {
-	Optimize   bool
-	AllocSize  int
-	TypeMode   string // "dynamic" | "relaxed" | "strict"
+	Optimize      bool
+	AllocSize     int
+	TypeMode      string // "dynamic" | "relaxed" | "strict"
+	DeepScope     bool   // ego.runtime.deep.scope (the default of `ego run`, `ego test` and the server)
+	Faulty        bool   // make a native function `vsboom()` available that hits a Go run-time panic (injected fault)
+	RuntimePanics bool   // ego.runtime.panics: @fail re-panics at the Go level
 }
 
 // RunProgram compiles src (a complete `package main` program) and runs main().
@@ -39,7 +43,28 @@ func RunProgram(name, src string, opt VMOptions) (output string, compileErr, run
 		settings.SetDefault(defs.OptimizerSetting, "0")
 	}
 
+	if opt.DeepScope {
+		settings.SetDefault(defs.RuntimeDeepScopeSetting, defs.True)
+	} else {
+		settings.SetDefault(defs.RuntimeDeepScopeSetting, defs.False)
+	}
+	if opt.RuntimePanics {
+		settings.SetDefault(defs.RuntimePanicsSetting, defs.True)
+	} else {
+		settings.SetDefault(defs.RuntimePanicsSetting, defs.False)
+	}
+
 	symbolTable := symbols.NewSymbolTable("file " + name).Shared(true)
+	if opt.Faulty {
+		// fault injection at a runtime-function seam: a native function of the kind the
+		// runtime packages register, which runs into a Go run-time panic
+		symbolTable.Root().SetAlways("vsboom", func(s *symbols.SymbolTable, args data.List) (any, error) {
+			var a []int
+			i := args.Len() + 3
+
+			return a[i], nil
+		})
+	}
 	symbolTable.SetAlways(defs.ModeVariable, "run")
 	symbolTable.Root().SetAlways(defs.MainVariable, defs.Main)
 	builtins.AddBuiltins(symbolTable.Root())
